@@ -1,31 +1,44 @@
 #!/bin/bash
 # usage: tools/confirm_seed.sh <worktree-with-seed-dir> <seed-id>
-# Confirms a seeded change in its scratch worktree: (1) demo fails with the change, (2) demo passes without it,
-# (3) the crate builds and the whole pinned suite still passes with the change (only the baseline's always-failing test
-# may fail). Writes /verif/seeded/<seed-id>/{patch.diff,seed_demo.rs,README.md,confirm.log}.
+# Confirms a seeded change in its scratch worktree (never in /repo):
+#  (1) the demonstration passes WITHOUT the change, (2) fails WITH it,
+#  (3) the crate builds and the whole pinned suite still passes with the change: only the baseline's always-failing
+#      test and the demonstration itself may fail; any other failing test is re-run alone up to 2 more times (the
+#      machine may be loaded and a few ICE/DTLS tests are timing-sensitive) and counts only if it fails every time.
+# Writes /verif/seeded/<seed-id>/{patch.diff,seed_demo.rs,README.md,confirm.log,suite_failures.txt}.
 set -u
 WT=$1; ID=$2
 DEST=/verif/seeded/$ID
+ALWAYS_FAIL="reinvite_answer_audio_codecs_follow_remote_offer_subset"
 mkdir -p $DEST
 export CARGO_TARGET_DIR=/tmp/seed_target_$ID CARGO_NET_OFFLINE=true
 cd $WT || exit 2
-cp seed/patch.diff seed/README.md $DEST/ 2>/dev/null
+cp seed/patch.diff $DEST/ || exit 2
+cp seed/README.md $DEST/ 2>/dev/null
 cp seed/seed_demo.rs $DEST/seed_demo.rs 2>/dev/null || cp tests/seed_demo.rs $DEST/seed_demo.rs
 LOG=$DEST/confirm.log; : > $LOG
-git checkout -q -- src 2>>$LOG; git stash list >> $LOG
+git checkout -q -- src 2>>$LOG
 cp $DEST/seed_demo.rs tests/seed_demo.rs
 echo "== demo WITHOUT change" >> $LOG
 cargo test --offline --test seed_demo >> $LOG 2>&1; RC_WITHOUT=$?
-git apply $DEST/patch.diff >> $LOG 2>&1 || { echo "patch does not apply" >> $LOG; exit 2; }
+git apply $DEST/patch.diff >> $LOG 2>&1 || { echo "patch does not apply" | tee -a $LOG; exit 2; }
 echo "== demo WITH change" >> $LOG
 cargo test --offline --test seed_demo >> $LOG 2>&1; RC_WITH=$?
+DEMO_TESTS=$(grep -E "^test .* (ok|FAILED)$" $LOG | awk '{print $2}' | sort -u | tr '\n' '|' | sed 's/|$//')
 echo "== full suite WITH change" >> $LOG
 cargo test --workspace --no-fail-fast --offline > $DEST/suite.log 2>&1
-FAILED=$(grep -E "^test .* FAILED$" $DEST/suite.log | grep -v "seed_demo\|tests::seed_\|^test seed_\|^test test_seed" | sort -u)
 OKN=$(grep -cE "^test .* ok$" $DEST/suite.log)
-echo "demo_without_rc=$RC_WITHOUT demo_with_rc=$RC_WITH suite_ok=$OKN" | tee -a $LOG
-echo "suite failures (excluding the demo):" | tee -a $LOG
-echo "$FAILED" | tee -a $LOG
-grep -E "^test .* FAILED$" $DEST/suite.log | sort -u > $DEST/suite_failures.txt
+grep -E "^test .* FAILED$" $DEST/suite.log | awk '{print $2}' | sort -u > $DEST/suite_failures.txt
+REAL=""
+for t in $(grep -vE "$ALWAYS_FAIL|^(${DEMO_TESTS:-__none__})$" $DEST/suite_failures.txt); do
+  pass=0
+  for i in 1 2; do
+    short=${t##*::}
+    if cargo test --workspace --offline -- --exact "$t" 2>&1 | grep -qE "^test .*$short \.\.\. ok$"; then pass=1; break; fi
+  done
+  if [ $pass = 1 ]; then echo "flaky under load (passes alone): $t" >> $LOG; else REAL="$REAL $t"; fi
+done
+echo "demo_without_rc=$RC_WITHOUT demo_with_rc=$RC_WITH suite_ok=$OKN real_suite_failures=[${REAL# }]" | tee -a $LOG
 rm -f $DEST/suite.log
 rm -rf $CARGO_TARGET_DIR
+if [ $RC_WITHOUT = 0 ] && [ $RC_WITH != 0 ] && [ -z "$REAL" ]; then echo "CONFIRMED $ID" | tee -a $LOG; else echo "NOT-CONFIRMED $ID" | tee -a $LOG; fi
